@@ -218,8 +218,14 @@ func (r *randomChooser) choose(step int, parked []int) int {
 	return i
 }
 
-func installHook(s *Sched) { column.VerifHook.Store(func(p string, c uint32) { s.Yield(p, c) }) }
-func removeHook()          { column.VerifHook.Store(func(string, uint32) {}) }
+func installHook(s *Sched) {
+	column.VerifHook.Store(func(p string, c uint32) { s.Yield(p, c) })
+	userYield = func(p string) { s.Yield(p, 0) }
+}
+func removeHook() {
+	column.VerifHook.Store(func(string, uint32) {})
+	userYield = func(string) {}
+}
 
 // pctChooser: probabilistic concurrency testing - random thread priorities, the highest-priority
 // parked thread runs; at d randomly chosen steps the running thread drops below everyone else
